@@ -235,6 +235,14 @@ def _strip(t):
     return t
 
 
+def _strip_conv(t):
+    n = 0
+    while Q.is_t(t) and n < 8 and ((t.op in ("refv", "deref", "conv", "cloned", "copied") and len(t.args) == 1) or t.op == "cast"):
+        t = t.args[0]
+        n += 1
+    return t
+
+
 def _traversed(it):
     """what an iterator term walks completely and in order, down to a (possibly sliced) collection"""
     n = 0
@@ -286,6 +294,16 @@ def prg_descents(eng):
                         elif rel == "notin" and tuple(v) == (1,):
                             bit = 0
                 sel[bit] = Q.path_of(x) or S(x, 5)
+        elif Q.is_t(g) and g.op == "index" and _strip_conv(g.args[1]).op == "elem":
+            # prgs[usize::from(bit)]: the generator is indexed by (a conversion of) the traversed bit itself
+            base = Q.path_of(g.args[0]) or S(g.args[0], 4)
+            sel = {0: "%s.[0]" % base, 1: "%s.[1]" % base}
+        elif Q.is_t(g) and g.op == "ref":
+            # prgs[usize::from(bit)]: the generator is indexed by (a conversion of) the traversed bit itself
+            ix = [p_[1] for p_ in g.args[1] if isinstance(p_, tuple) and p_ and p_[0] == "i" and Q.is_t(p_[1])]
+            if len(ix) == 1 and _strip_conv(ix[0]).op == "elem":
+                base = ".".join(str(p_[1]) if isinstance(p_, tuple) else str(p_) for p_ in g.args[1] if not (isinstance(p_, tuple) and p_[0] == "i"))
+                sel = {0: "%s[%s][0]" % (g.args[0], base), 1: "%s[%s][1]" % (g.args[0], base)}
         out.append((e, init, whole, sel))
     return out
 
